@@ -1,7 +1,7 @@
 #!/bin/bash
 # developer helper (tie C): what does a seeded change do to the generated definitions and their proofs?
 #   tools/tiec_mutant.sh <seeded change name> [<work dir>]
-# Applies seeded/<name>/patch.diff to a scratch worktree of /repo's HEAD (never to /repo), regenerates
+# Applies seeded/<name>/patch.diff to a scratch COPY of /repo/calgebra (never to /repo), regenerates
 # Gen/Source.v from it into a COPY of coq/ and compiles Source.v and every Proofs/GenEq*.v there.
 # Prints one line:  <name> | changed definitions | not translated | GenEq files that no longer compile
 set -u
@@ -10,11 +10,11 @@ name=$1; work=${2:-/tmp/tiec_mut_$$}
 patch=$here/seeded/$name/patch.diff
 wt=$work/repo
 rm -rf "$work"; mkdir -p "$work"
-git -C /repo worktree add -f --detach "$wt" HEAD -q || { echo "$name | worktree failed"; exit 2; }
-cleanup() { git -C /repo worktree remove --force "$wt" >/dev/null 2>&1; rm -rf "$work"; }
+mkdir -p "$wt" && cp -r /repo/calgebra "$wt/calgebra"      # (a plain copy of the sources: /repo is not touched)
+cleanup() { rm -rf "$work"; }
 trap cleanup EXIT
-if ! (cd "$wt" && git apply "$patch" 2>/dev/null || git apply --3way "$patch" 2>/dev/null); then
-  echo "$name | PATCH DOES NOT APPLY to /repo HEAD"; exit 3
+if ! (cd "$wt" && git apply --unsafe-paths "$patch" 2>"$work/apply.err"); then
+  echo "$name | PATCH DOES NOT APPLY to /repo HEAD: $(head -1 "$work/apply.err")"; exit 3
 fi
 cp -r "$here/coq" "$work/coq"
 cd "$here"
